@@ -27,7 +27,9 @@ EXPLANATION = (
     "C08.HALFOPEN: the daylight interval is closed at its start and open at its end in both hemisphere branches of "
     "_naive_isdst and in the ambiguity window. C08.RANGE: tzrange defaults (saving 1 h, April/October rules), "
     "transitions are year start + rule, fromutc converts both transitions with the STANDARD offset. C08.LOCAL: "
-    "tzlocal negates time.timezone / time.altzone (seconds west -> offset east). C08.TERM: the scanner loops advance.")
+    "tzlocal negates time.timezone / time.altzone (seconds west -> offset east). C08.TERM: the scanner loops advance. "
+    "C08.EXC: the exception-escape analysis finds only ValueError escaping tzstr(<text>) and nothing at all escaping "
+    "the TZ-string scanner (all of its failures become a None result).")
 ASSUMPTIONS = ["relativedelta applies rules as in C03", "transition instants for all rules (e.g. end times smaller than the saving, /24) are NOT decided"]
 
 SLOTS = {"stdabbr", "stdoffset", "dstabbr", "dstoffset", "start", "end", "month", "week", "weekday", "yday", "jyday", "day", "time"}
@@ -93,6 +95,16 @@ def run(ctx):
     uu = [n for n in pcfg.live_nodes() if n.kind == "stmt" and isinstance(n.ast, ast.Assign) and src(n.ast.targets[0]) == "res.any_unused_tokens"]
     ctx.ob("C08.REJECT", tzp, "tokens other than ',' and ':' that were never consumed are reported as unused",
            len(uu) == 1 and src(uu[0].ast.value).replace(" ", "") == "not{l[n]forninunused_idxs}.issubset({',',':'})", construct="any_unused_tokens")
+
+    # ---------------------------------------------------------------- C08.EXC
+    from ..exc import check_escape
+    sup = {
+        (tzp.qualname, "l[n]"): "n ranges over set(range(len_l)) minus the used indices",
+        ("dateutil.relativedelta.relativedelta.__init__", "weekdays[weekday]"): "tzstr passes a weekday object, never an int (relativedelta.weekday(x.weekday, x.week))",
+        ("dateutil.relativedelta.relativedelta.__init__", "ydayidx[idx - 1]"): "else-branch of idx == 0 inside enumerate(): idx >= 1",
+    }
+    check_escape(ctx, "C08.EXC", init, ("ValueError",), seeds={(init.qualname, "s"): ["str"]}, suppress=sup, min_functions=8, label="tzstr()")
+    check_escape(ctx, "C08.EXC", tzp, (), seeds={(tzp.qualname, "tzstr"): ["str"]}, suppress=sup, min_functions=2, label="_tzparser.parse()")
 
     # ---------------------------------------------------------------- C08.NULL
     n_uses = 0
